@@ -22,6 +22,7 @@ import (
 	"github.com/sirupsen/logrus"
 
 	"github.com/Trendyol/go-dcp/logger"
+	"github.com/Trendyol/go-dcp/vsync"
 
 	"verif/journal"
 )
@@ -107,6 +108,7 @@ func TestRun(t *testing.T) {
 	gocbcore.VerifDial = func(ctx context.Context, addr string) (io.ReadWriteCloser, string, error) {
 		return w.cl.dial(addr)
 	}
+	vsync.YieldHook = w.yieldHook
 	gocbcore.VerifHTTPDial = func(network, addr string) (net.Conn, error) { return w.cl.httpDial(network, addr) }
 	synctest.Test(t, func(t *testing.T) {
 		w.t0 = time.Now()
